@@ -702,7 +702,9 @@ def evaluate_payload_template(input, context, template):
 
         if v_is_path_or_intrinsic:
             if v == "$":  # It's a path representing the root node
-                v = clone(input)  # clone to avoid potential circular reference
+                # Copy to avoid potential circular reference. Note the input is
+                # data not a template (it may not even be an object or array).
+                v = copy.deepcopy(input)
             elif v.startswith("$"):  # It's a path
                 v = apply_path(input, context, v)
             else:  # It's an Intrinsic Function
